@@ -24,7 +24,7 @@ ASSUMPTIONS = [
     "A visibility transform or an extension may refuse with a SchemaError-family exception when the predicate / document makes the schema invalid; the step is then skipped.",
     "An element may legitimately disappear when it is hidden, its container is hidden, or its type refers to a hidden type.",
 ]
-BUDGET = {"quick": 70, "thorough": 1500}
+BUDGET = {"quick": 110, "thorough": 1500}
 
 
 def camel(name):
